@@ -95,6 +95,9 @@ pub fn cases(o: &mut Outcome, rng: &mut Rng, thorough: bool) {
     parts::match_cases(o);
     parts::block_cases(o);
     parts::lex_cases(o, rng, thorough);
+    if std::env::var_os("OPTIN_NO_E2E").is_none() {
+        crate::optin_e2e::cases(o, rng, thorough);
+    }
 }
 
 /// `rfverif optin`: the standalone run of this module.
